@@ -107,6 +107,12 @@ func c13(r *Report) propMeta {
 	r.Rule("C13.R7", "store-key agreement: every point read/delete addresses a written key family")
 	r.StoreKeyAgreement("store-keys", "oracle", 14, nil)
 
+	r.Rule("C13.R8", "E7 swallowed-error census of message and IBC handlers")
+	{
+		roots := r.W.ComputeRoots()
+		r.Swallowed("msg-swallowed", fnSet(roots.Msg, roots.IBC), c13SwallowAllow, 8)
+	}
+
 	// quoted route fee = charged fee (C08)
 	r.Include("C08", "C08.R5")
 
@@ -123,8 +129,24 @@ func c13(r *Report) propMeta {
 			"R6 no bank/distribution keeper error is discarded in the x/ modules",
 			"R7 every KV-store Get/Has/Delete of x/oracle uses a key builder of x/oracle/types that some Set of the module also uses (a probe of an iteration prefix or of a sibling family is always-empty state)",
 			"lint: the determinism lint (incl. writes to memory held by long-lived objects) over everything reachable from the handlers and blockers of x/oracle",
+			"R8 a message or IBC handler that tests an error and then carries on returns success, so baseapp COMMITS whatever the failed callee had already written (an escrowed fee for a signing that was never created: seed C13-8); every such site reachable from a handler is in a reviewed table of 11 (lookups whose miss is a default, the complaint polarity, the optional incoming-group signing on a cache context, the IBC error acknowledgement)",
 		},
 		Undecided: []string{"exactness at limit-1/limit/limit+1 per denom (Coins arithmetic)", "escrow conservation across retries and transitions (history)", "that Threshold at completion equals Threshold at request (store invariant)"},
 		Assume:    []string{"bank Send* conserve supply and are all-or-nothing per call", "msg handlers atomic; CacheContext isolation"},
 	}
+}
+
+// c13SwallowAllow: error tests in message / IBC handler code after which execution carries on.
+var c13SwallowAllow = []swallowAllow{
+	{"pkg/tickmath.PriceToTick", "tickmath.tickToPriceX96", "pure function; an out-of-range candidate tick is skipped and the next candidate tried"},
+	{"pkg/tss.VerifyComplaint", "tss.VerifySecretShare", "polarity by design: the share FAILING verification is what makes the complaint succeed (C04.R3)"},
+	{"x/bandtss/keeper.Keeper.createSigningRequest", "TSSKeeper.RequestSigning", "the optional signing by the INCOMING group runs on its own cache context that is written only on success; its failure is reported by an event (C18)"},
+	{"x/feeds/keeper.Keeper.IsBondedValidator", "StakingKeeper.GetValidator", "read-only lookup; an unknown validator is not bonded"},
+	{"x/feeds/keeper.Keeper.SetSignalTotalPower", "Keeper.GetSignalTotalPower", "read-only lookup; no previous total means no previous index entry to delete"},
+	{"x/feeds/keeper.msgServer.SubmitSignalPrices", "Keeper.GetValidatorPriceList", "read-only lookup; no stored list means an empty list"},
+	{"x/feeds/keeper.msgServer.Vote", "Keeper.GetSignalTotalPower", "read-only lookup; no stored total means zero"},
+	{"x/oracle.IBCModule.OnRecvPacket", "ProtoCodec.UnmarshalJSON", "answered with an error acknowledgement; ibc-go discards the cache context for it (C02.R8)"},
+	{"x/oracle.IBCModule.OnRecvPacket", "Keeper.OnRecvPacket", "answered with an error acknowledgement; ibc-go discards the cache context for it (C02.R8)"},
+	{"x/oracle/keeper.Keeper.GetRandomValidators$1", "types.ValAddressFromBech32", "iterator callback over bonded validators; an undecodable operator address is skipped (read-only)"},
+	{"x/tss/keeper.Keeper.ProcessComplaint", "Keeper.VerifyComplaint", "by design: a failing complaint marks the complainant, a verifying one the respondent (C04.R3); both outcomes are recorded"},
 }
